@@ -218,7 +218,7 @@ func generate(gcfgs []chartconfig.ChartConfig, paddings map[string]padding) (*te
 			programs[gcfg.Program] = pcfg
 			minVersions[gcfg.Program] = gcfg.Version
 		}
-		minVersions[gcfg.Program] = minVersion(minVersions[gcfg.Program], gcfg.Version)
+		minVersions[gcfg.Program] = minVersion(gcfg.Program, minVersions[gcfg.Program], gcfg.Version)
 		ccfg := telemetry.CounterConfig{
 			Name:  gcfg.Counter,
 			Rate:  1.0, // TODO(rfindley): how should rate be configured?
@@ -354,15 +354,23 @@ func prereleasesForProgram(program string) []string {
 	return []string{"pre.1", "pre.2", "pre.3", "pre.4", "pre.5", "pre.6", "pre.7", "pre.8"}
 }
 
-// minVersion returns the lesser semantic version of v1 and v2.
+// minVersion returns the lesser of the versions v1 and v2 of the given
+// program: Go versions for toolchain programs, semantic versions otherwise.
 //
 // As a special case, the empty string is treated as an absolute minimum
 // (empty => all versions are greater).
-func minVersion(v1, v2 string) string {
+func minVersion(program, v1, v2 string) string {
 	if v1 == "" || v2 == "" {
 		return ""
 	}
-	if semver.Compare(v1, v2) > 0 {
+	compare := semver.Compare
+	if telemetry.IsToolchainProgram(program) {
+		// Toolchain programs are versioned with Go versions (go1.2.3), which
+		// are not valid semantic versions: semver.Compare treats them all as
+		// equal.
+		compare = version.Compare
+	}
+	if compare(v1, v2) > 0 {
 		return v2
 	}
 	return v1
